@@ -179,14 +179,29 @@ class SelDevice:
 
 @contextlib.contextmanager
 def fake_sleep(sleeps):
-    """pyipmi.helper sleeps through its module global `time`: record instead (ms)"""
+    """record the library's sleeps (ms) instead of sleeping, however pyipmi.helper reaches time.sleep
+    (module global `time`, `from time import sleep`, or time.sleep itself)"""
+    import time as T
     import pyipmi.helper as H
-    old = H.time
-    H.time = types.SimpleNamespace(sleep=lambda t: sleeps.append(int(round(t * 1000))))
+    real = T.sleep
+
+    def rec(t):
+        sleeps.append(int(round(t * 1000)))
+    saved = {}
+    for k, v in list(vars(H).items()):
+        if v is T:
+            saved[k] = v
+            setattr(H, k, types.SimpleNamespace(sleep=rec, time=T.time, monotonic=T.monotonic))
+        elif v is real:
+            saved[k] = v
+            setattr(H, k, rec)
+    T.sleep = rec
     try:
         yield
     finally:
-        H.time = old
+        T.sleep = real
+        for k, v in saved.items():
+            setattr(H, k, v)
 
 
 def _run(dev, fn):
@@ -800,7 +815,7 @@ def run(ctx):
         # how many requests does one undisturbed round take?
         dev = SelDevice(log, limit)
         _, ex0 = _run(dev, lambda ipmi: ipmi.get_and_clear_sel_entry(rid))
-        nreq = len(ex0)
+        nreq = max(len(ex0), 3)      # (an implementation that sends nothing is reported by the oracle, not a crash)
         # a single change before every request index (and one beyond the end: no effect)
         for pos in range(nreq + 1):
             gac_case(log, limit, rid, [None] * pos + [fresh()], corr=(q and pos % 3 == 0) or not q)
